@@ -57,6 +57,10 @@ def x_sendMsgThroughSocket(ex, args, kwargs, st, fr, node):
     lim = _one(ex.getattr_(self_, 'recordSize', st, fr, node), 'recordSize').val
     ex.oblige(st, 'O-frag-limit@L%d' % line, (S.len_(data) <= lim).t, kind='assert', where=line)
     ex.oblige(st, 'O-frag-type@L%d' % line, (ct == st.heap[(self_.oid, 'g_ctype')]).t, kind='assert', where=line)
+    # no empty record is put on the wire for a non-empty message (a zero-length handshake record is a fatal error at the peer;
+    # C14: a message is processed the same however it is split)
+    ex.oblige(st, 'O-frag-nonempty@L%d' % line,
+              S.Or(S.len_(data) >= 1, S.len_(st.heap[(self_.oid, 'g_m0')]) == 0).t, kind='assert', where=line)
     n = st.heap[(self_.oid, 'g_n')]
     first = st.heap[(self_.oid, 'g_first_len')]
     st.heap[(self_.oid, 'g_first_len')] = S.ite(n == 0, S.len_(data), first)
@@ -145,6 +149,8 @@ def _inv(ns):
     return S.And(S.len_(g('g_out')) + S.len_(ns.buf) == S.len_(g('g_m0')),
                  S.seq_eq(S.cat(g('g_out'), ns.buf), g('g_m0')),
                  g('g_n') >= 0,
+                 # what is left to send is non-empty (so the final fragment is): only an empty message yields an empty record
+                 S.Or(S.len_(ns.buf) >= 1, S.len_(g('g_m0')) == 0),
                  ns.contentType == g('g_ctype'),
                  S.implies(S.And(_split_applies(ns.old), S.len_(g('g_m0')) >= 1),
                            S.And(g('g_first_len') == 1, g('g_n') >= 1)))
@@ -161,7 +167,7 @@ for _vn, _mt, _field, _req in (
              raises={socket.error: None},
              loops={2: LoopSpec(_inv, variant=lambda ns: S.len_(ns.buf), modifies_fields=_GHOST,
                                 fingerprint='self.recordSize')},
-             prop=('C01', 'C16'),
+             prop=('C01', 'C16', 'C14'),
              doc='every fragment handed to _sendMsgThroughSocket is <= recordSize and carries msg.contentType; their '
                  'concatenation in call order is msg.write() at entry, also across the 1/n-1 split (first fragment is '
                  'exactly byte 0); the fragmentation loop terminates when recordSize >= 1')
